@@ -695,10 +695,12 @@ async def load_scripts(
     # if any file in an app or module has changed, then reload just the top-level
     # __init__.py or module/app .py file, and delete everything else
     #
+    # a deleted file (or an app whose configuration was removed) counts as a change of its app or module too
+    #
     done = set()
-    for global_ctx_name, src_info in ctx2files.items():
-        if not src_info.force:
-            continue
+    changed_names = [name for name, src_info in ctx2files.items() if src_info.force]
+    changed_names += [name for name in ctx_delete if name not in ctx2files]
+    for global_ctx_name in changed_names:
         if not global_ctx_name.startswith("apps.") and not global_ctx_name.startswith("modules."):
             continue
         parts = global_ctx_name.split(".")
@@ -713,6 +715,9 @@ async def load_scripts(
                     this_src_info.force = True
                 else:
                     this_src_info.force = False
+                ctx_delete.add(ctx_name)
+        for ctx_name in ctx_all:
+            if ctx_name == root or ctx_name.startswith(f"{root}."):
                 ctx_delete.add(ctx_name)
         done.add(root)
 
